@@ -451,6 +451,40 @@ def breaking_variants(root):
     add(T, 'Traph.__init__', 'R-ENCODED', 'rule registered under the raw key on reopen',
         nth(lambda s: call_stmt(s, 'add_webentity_creation_rule')),
         'self.webentity_creation_rules[prefix] = re.compile(pattern, re.I)')
+    # ---- round 8
+    add(T, 'Traph.add_links', 'R-SINGLE-PASS', 'multimaps filled in a second pass over the argument',
+        nth(lambda s: isinstance(s, ast.Expr) and ast.unparse(s) == 'outlinks[source_page].append(target_page)'),
+        lambda n, src: 'pass\n        for source_page, target_page in links:\n            source_page = self.__encode(source_page)\n            target_page = self.__encode(target_page)\n            ' + seg(src, n))
+    add(T, 'Traph.__init__', 'R-FORMAT-ARITY', 'refusal message formatted with a missing value',
+        nth_expr(lambda n: isinstance(n, ast.Constant) and n.value == 'File corrupted: `link_store.dat`'),
+        '"File corrupted: `link_store.dat` (%i bytes, blocks of %i)" % len(self.links_store_storage)')
+    add(T, 'Traph.close', 'R-CLOSE', 'idempotence flag never reset by clear()',
+        nth(lambda s: isinstance(s, ast.If) and ast.unparse(s.test) == 'self.lru_trie_file'),
+        lambda n, src: 'if getattr(self, "was_closed", False):\n            return\n        self.was_closed = True\n        ' + seg(src, n))
+    add(T, 'Traph.clear', 'R-CLEAR-AGREE', 'early return when no default rule is given',
+        nth(lambda s: isinstance(s, ast.If) and ast.unparse(s.test) == 'default_webentity_creation_rule is not None'),
+        lambda n, src: 'if default_webentity_creation_rule is None:\n            return\n        ' + seg(src, n))
+    add(T, 'Traph.clear', 'R-CLEAR-AGREE', 'reopened files plugged crosswise',
+        nth(lambda s: isinstance(s, ast.Assign) and ast.unparse(s.targets[0]) == 'self.lru_trie_storage.file'), 'self.lru_trie_storage.file = self.link_store_file')
+    add(T, 'Traph.paginate_webentity_pages', 'R-PAGINATE', 'prefix list sorted',
+        nth(lambda s: isinstance(s, ast.For) and 'range(' in ast.unparse(s.iter)),
+        lambda n, src: 'prefixes = sorted(prefixes, key=len)\n        ' + seg(src, n))
+    add(T, 'Traph.expand_prefix', 'R-VARIATIONS', 'expansion sorted',
+        nth(lambda s: isinstance(s, ast.Return)), 'return sorted(lru_variations(prefix), key=len)')
+    add(H, 'lru_variations', 'R-VARIATIONS', 'www looked for at the end of the raw LRU',
+        nth_expr(lambda n: isinstance(n, ast.Compare) and ast.unparse(n.left) == 'hosts[-1]'), 'lru.endswith(b"|h:www|")')
+    add(L, 'LRUTrie.webentity_dfs_iter', 'R-RELEVANCE', 'depth limit ends the walk',
+        nth(lambda s: isinstance(s, ast.Continue)), 'break')
+    add(L, 'LRUTrie.windup_lru_for_webentity', 'R-LRU-ASSEMBLY', 'in-place climb that never asks the top-most ancestor',
+        nth(lambda s: isinstance(s, ast.For)),
+        'if node.has_parent():\n            parent = node.parent_node()\n            while parent.has_parent():\n                if parent.has_webentity():\n                    return parent.webentity()\n                parent.read_parent()')
+    add(ND, 'LRUTrieNode.refresh', 'R-PRIMITIVES', 'flags of the stale copy merged back',
+        nth(lambda s: call_stmt(s, 'read')),
+        lambda n, src: 'pending = self.data[LRU_TRIE_NODE_FLAGS]\n        ' + seg(src, n) + '\n        self.data[LRU_TRIE_NODE_FLAGS] |= pending')
+    add(ND, 'LRUTrieNode.read', 'R-TAIL-PROTOCOL', 'tail re-bound to the last chunk',
+        nth(lambda s: isinstance(s, ast.Expr) and ast.unparse(s).startswith('chunks.append(')), 'self.tail = chars')
+    add(H, 'detailed_chunks_iter', 'R-CHUNK-LAST', 'one-based chunk loop with the zero-based last test',
+        nth_expr(lambda n: isinstance(n, ast.Call) and ast.unparse(n) == 'range(nb_chunks)'), 'range(1, nb_chunks + 1)')
     return out
 
 
